@@ -122,7 +122,9 @@ def recovery(rep, prog, P):
     post = None
     nreset = 0
     for st, ret in res['topo.rest']:
-        if st.dom(OPC).const() != OP['reset']:
+        # every final state on which the function code MAY be Reset: a path that leaves before the opcode is ever looked at
+        # (a hold-off, a rate limit) ends in a state whose function code is unconstrained - the Reset in it was not honoured
+        if not st.dom(OPC).contains(OP['reset']):
             continue
         if any(e[0] == 'malloc-failed' for e in st.trace):
             continue
@@ -154,7 +156,13 @@ def recovery(rep, prog, P):
             else:
                 rep.fail(P + '.2', 'reset|%s' % name, 'after a topology Reset field %s holds %s: neither its fresh value nor untouched'
                          % (name, [short(b) for b in bs][:4]), function='parseFrame', file='lltdResponder/lltdBlock.c')
-        post = cells
+        if post is None:
+            post = cells
+        else:
+            # a field is fresh after Reset only when it is fresh on every Reset path
+            for off, c in cells.items():
+                if c[2] == 'stale' or off not in post:
+                    post[off] = c
         # resources released
         live = live_heap(fs, st)
         rep.check(not live, P + '.2', 'reset|live-heap', 'objects still allocated after a topology Reset: %s' % live,
@@ -190,7 +198,9 @@ def recovery(rep, prog, P):
         def extra(I, st, kcls=kcls):
             if kcls == 'known':
                 st.refine(KNOWN, Dom(1, 255))
-        res2, o2, stats2 = run_regions(fs2, engine_cls=TaintEngine, extra=extra if kcls == 'known' else None)
+            elif kcls == 'free':
+                st.refine(KNOWN, Dom(0, 0))
+        res2, o2, stats2 = run_regions(fs2, engine_cls=TaintEngine, extra=extra if kcls in ('known', 'free') else None)
         obs2 += o2
         label = '%s/%s' % (kcls, ','.join(sorted(set(field_of[b] for b in stale))) or '-')
         explored.append(label)
@@ -242,7 +252,11 @@ def recovery(rep, prog, P):
                         left.add(b)
                 for kc in (['known'] if kp.lo >= 1 else (['free'] if kp.hi == 0 else ['known', 'free'])):
                     if kc == 'free' and kcls == 'reset':
-                        kc = 'reset' if left == stale else 'free'
+                        # still exactly the post-Reset record?  (a frame may have left the stale bytes alone and yet recorded
+                        # something - an observation, a sequence number: then the rest of the record is "anything" again)
+                        same_rest = all(st.canon(mem.load_byte(st, so, (), b_)) == ZERO
+                                        for off_, (n_, v_) in fresh_init.items() for b_ in range(off_, off_ + n_))
+                        kc = 'reset' if (left == stale and same_rest) else 'free'
                     nxt = (kc, frozenset(left))
                     if left and nxt not in seen and len(seen) < 40:
                         seen.add(nxt)
